@@ -29,8 +29,10 @@ static void load_symbols(void) { for (int Z = 1; Z <= 107; Z++) { char *s = Atom
 typedef struct Node { int kind; /* 0 element, 1 group */ int sym; char sub[12]; int nkids; struct Node *kids[6]; } Node;
 static Node pool[4096]; static int npool;
 static void mksub(char *out) {
-  int r = rndint(0, 9);
-  if (r < 3) out[0] = 0; else if (r < 7) sprintf(out, "%d", rndint(1, 12)); else if (r < 9) sprintf(out, "%d.%d", rndint(0, 9), rndint(1, 99)); else sprintf(out, ".%d", rndint(1, 9));
+  int r = rndint(0, 11);       /* one subscript in six is very small or very large: positive is positive, whatever the magnitude */
+  if (r == 10) strcpy(out, (const char *[]){"0.0000005", "0.00000012", "0.000001", "0.00001"}[rndint(0, 3)]);
+  else if (r == 11) strcpy(out, (const char *[]){"1000000", "250000.5", "40000", "0.999999"}[rndint(0, 3)]);
+  else if (r < 3) out[0] = 0; else if (r < 7) sprintf(out, "%d", rndint(1, 12)); else if (r < 9) sprintf(out, "%d.%d", rndint(0, 9), rndint(1, 99)); else sprintf(out, ".%d", rndint(1, 9));
 }
 static Node *gen(int depth, int maxel) {
   Node *n = &pool[npool++]; memset(n, 0, sizeof *n);
